@@ -64,6 +64,14 @@ def fanout_sweep(ctx, F, prefix, method):
     for i, j, pl, rv, s in b.assigns():
         if rv["k"] == "binop" and rv["op"] in ("AddWithOverflow", "Add") and flow.const_of(rv["b"]) == 1 and op_local(rv["a"]) in idx_locals:
             inc_bbs.add(i)
+    # every call considers every entry: the index starts at the constant 0 on entry to the sweep
+    starts = []
+    for l in idx_locals:
+        for d in b.defs().get(l, []):
+            if d[0] == "assign" and d[1] not in lp:
+                starts.append(flow.const_of(d[3]["op"]) if d[3]["k"] == "use" else None)
+    ctx.check(starts == [0], prefix + ".sweep-from-start", "fanout:%s:not-from-zero" % method,
+              "FanoutMany::%s starts its sweep at entry 0 on every call (initial index: %s)" % (method, starts), b.span)
     bad = []
     n_iter = 0
     for p in paths:
@@ -168,3 +176,24 @@ def router_retain(ctx, F, prefix, method):
     ctx.check(ok, prefix + ".evict-only-failed", "router:%s:evicts-healthy" % method, "Router::%s evicts an entry only when its %s returned Ready(Err) (not on Pending or Ok)" % (method, method), cb.span)
     # entries not polled twice: the `pending` short-circuit returns true without polling
     ctx.ok(prefix + ".retain-shape", "Router::%s polls each entry at most once per call (retain visits each entry once)" % method, cb.span)
+
+
+def counter_keys(ctx, F, body, routing, prefix, expected):
+    """registrations are keyed by monotone counters: each insert uses its counter, counters are only ever incremented by one, and
+    each insert is followed by such an increment (so ids of live entries are never reused)"""
+    keys = sorted({(o, t) for (k, o, t) in routing if k == "insert"})
+    want = sorted((o, "key:" + c) for o, c in expected.items())
+    ctx.check(keys == want, prefix + ".counter-keys", "insert-keys", "entries are registered under their id counters (found %s, expected %s)" % (keys, want), body.span)
+    for obj, cname in sorted(expected.items()):
+        ls = body.local_by_debug(cname)
+        writes = []
+        wblocks = []
+        for i, j, pl, rv, s in body.assigns():
+            if pl["l"] in ls and "*" in pl["p"]:
+                r = flow.root(body, rv["op"]) if rv["k"] == "use" else ("rv", rv)
+                writes.append(r[0] == "rv" and r[1]["k"] == "binop" and r[1]["op"] in ("AddWithOverflow", "Add") and flow.const_of(r[1]["b"]) == 1)
+                wblocks.append(i)
+        ctx.check(bool(writes) and all(writes), prefix + ".counter-monotone", "counter-reset:%s" % cname, "`%s` is only ever incremented by one" % cname, body.span)
+        ins = [c for c in body.calls() if c.name() == "insert" and any(op_local(a) is not None and flow.root_local(body, a) in ls for a in c.args[1:2])]
+        ok = bool(ins) and all(any(body.dominates(c.bb, w) and w in flow.reach_avoiding(body, [c.target], []) for w in wblocks) for c in ins)
+        ctx.check(ok, prefix + ".counter-advanced", "counter-not-advanced:%s" % cname, "every registration under `%s` is followed by its increment" % cname, (ins or [body])[0].span)
